@@ -348,7 +348,7 @@ fn main() {
                 }
             }
             let t0 = std::time::Instant::now();
-            let (it_rand, it_pct) = if tier == "thorough" { (400_000, 100_000) } else { (6_000, 2_000) };
+            let (it_rand, it_pct) = if tier == "thorough" { (2_000_000, 400_000) } else { (6_000, 2_000) };
             let plan: Vec<(&str, bool, u16, usize)> = if prop == "C19" {
                 vec![("random-n8", false, 8, it_rand), ("random-n2-", false, 2, it_rand / 2), ("random-n125", false, 125, it_rand / 10), ("pct-n8", true, 8, it_pct)]
             } else {
